@@ -335,7 +335,7 @@ variable {α : Type} [Field α] [Inhabited α]
 theorem ext_edge_clamp (l r : Nat) (x : List α) (hT : 0 < x.length) (i : Int) :
     ext l r .edge x i
       = x.getD (if i < 0 then 0 else if i ≥ (x.length : Int) then x.length - 1 else i.toNat) 0 := by
-  unfold ext
+  unfold Tensor.ext
   by_cases h : 0 ≤ i ∧ i < (x.length : Int)
   · simp only [h, and_self, if_true]
     rw [if_neg (by omega), if_neg (by omega)]
@@ -675,7 +675,7 @@ theorem padded_wf (c : Stack α) (ta : Nat) (x : Tensor α) (hwf : x.WF) : (padd
 
 theorem ext_inside (l r : Nat) (mode : PadMode α) (x : List α) (i : Int) (h : 0 ≤ i ∧ i < (x.length : Int)) :
     ext l r mode x i = x.getD i.toNat default := by
-  unfold ext
+  unfold Tensor.ext
   simp only [h, and_self, if_true]
 
 /-- values of the (possibly padded) features: the input where it exists, the extension beyond -/
@@ -811,7 +811,7 @@ theorem path2d_eq_pathNd_t0 (ip : Bool) (n nT A B : Nat) (x1 : Tensor α) (hsh :
   congr 1
   have hshape : (x1.shape.set 0 nT).set 1 (x1.shape.getD 1 0 * n) = [nT, B * n] := by
     rw [hB, hsh]; rfl
-  apply Tensor.ext
+  apply Tensor.ext_get
   · show List.length _ = numel [nT, B * n]
     rw [hnum]; simp [ofFn]
   · exact ofFn_wf _ _
@@ -853,7 +853,7 @@ theorem path2d_eq_pathNd_t1 (ip : Bool) (n nT A B : Nat) (x1 : Tensor α) (hsh :
   congr 1
   have hshape : (x1.shape.set 1 nT).set 0 (x1.shape.getD 0 0 * n) = [B * n, nT] := by
     rw [hB, hsh]; rfl
-  apply Tensor.ext
+  apply Tensor.ext_get
   · exact transpose_wf _
   · exact ofFn_wf _ _
   · exact hshape.symm
